@@ -38,3 +38,15 @@ Lemma open_failure_throws a b c : load_outcome false a b c = Thrown /\ save_outc
 Proof. split; reflexivity. Qed.
 Lemma unreadable_content_throws a : load_outcome true true false a = Thrown /\ load_outcome true false a false = Thrown.
 Proof. split; reflexivity. Qed.
+
+(* whatever was loaded and looked up before, a lookup after load(n) is the lookup in n *)
+Lemma lookup_after_reload st ops n q : last (grun st (ops ++ [GLoad n; GLookup q])) Thrown = lookup n q.
+Proof.
+  revert st. induction ops as [|o t IH]; intros st; simpl; auto.
+  destruct o as [m|p]; simpl; [apply IH|].
+  specialize (IH st). destruct (grun st (t ++ [GLoad n; GLookup q])) eqn:E; [|exact IH].
+  exfalso. clear - E. revert st E. induction t as [|o t IHt]; intros st E; simpl in E; [discriminate|].
+  destruct o; [eapply IHt; eauto|discriminate].
+Qed.
+Lemma cached_lookup_refuted : exists ops, last (grun_cached [] [] ops) Thrown <> last (grun [] ops) Thrown /\ last (grun [] ops) Thrown = Thrown.
+Proof. exists [GLoad [7; 8; 9]; GLookup 9; GLoad [5; 6]; GLookup 9]. vm_compute. split; [discriminate|reflexivity]. Qed.
